@@ -166,7 +166,30 @@ func NewPool(seed uint64, perType, zeros int) *Pool {
 			panic("key pool: leading-zero search exhausted")
 		}
 	}
+	// keys whose X and Y BOTH start with a zero byte (p ~ 2^-16 per key; smallest such private scalars, found once by
+	// exhaustive search and listed here so that every run has them)
+	for _, dz := range []struct {
+		t KeyType
+		d int64
+	}{{P256, 49350}, {P256, 112756}, {P384, 6394}, {P384, 10184}, {P521, 62859}, {P521, 183519}, {Secp256k1, 55959}, {Secp256k1, 62762}} {
+		k := keyFromScalar(dz.t, big.NewInt(dz.d))
+		if k.X[0] == 0 && k.Y[0] == 0 {
+			k.Tags = []string{"x0y0"}
+			add(k)
+		}
+	}
 	return p
+}
+
+func keyFromScalar(t KeyType, d *big.Int) *Key {
+	c := t.curve()
+	x, y := c.ScalarBaseMult(d.Bytes()) //nolint:staticcheck
+	size := t.CoordSize()
+	k := &Key{Type: t, X: make([]byte, size), Y: make([]byte, size)}
+	x.FillBytes(k.X)
+	y.FillBytes(k.Y)
+	k.EC = &ecdsa.PrivateKey{PublicKey: ecdsa.PublicKey{Curve: c, X: x, Y: y}, D: d}
+	return k
 }
 
 func deriveKey(t KeyType, rng *core.RNG) *Key {
